@@ -13,13 +13,28 @@ mode = sys.argv[1]
 if mode != "default":  # "default": the models as imported, never rebuilt (what Hugr.load_json / Package.from_bytes use)
     config = ConfigDict(strict=True, extra="forbid") if mode == "strict" else ConfigDict(strict=False, extra="allow")
     SerialHugr._pydantic_rebuild(config, force=True)
+def verdict(f):
+    try:
+        f()
+        return "1"
+    except Exception as e:  # noqa: BLE001
+        name = type(e).__name__
+        return "0" if name == "ValidationError" else "E " + name
+
+
 MODELS = {"SerialHugr": SerialHugr, "Package": Package, "Extension": Extension}
 print("READY", flush=True)
 for line in sys.stdin:
     try:
         req = json.loads(line)
-        MODELS[req["kind"]].model_validate_json(json.dumps(req["doc"]))
-        print("1", flush=True)
+        ans = verdict(lambda: MODELS[req["kind"]].model_validate_json(json.dumps(req["doc"])))
+        if req["kind"] == "SerialHugr" and ans in ("0", "1") and isinstance(req["doc"], dict):
+            # the decoder's own entry point (what Hugr.load_json calls) judges the same document
+            ans2 = verdict(lambda: SerialHugr.load_json(req["doc"]))
+            # (under the strict configuration validation of Python objects is narrower than validation of JSON text,
+            # lists are not tuples there: only an acceptance by load_json of what the JSON decoder rejects counts)
+            if ans2 != ans and (mode != "strict" or (ans == "0" and ans2 == "1")):
+                ans = f"D validate={ans} load_json={ans2}"
+        print(ans, flush=True)
     except Exception as e:  # noqa: BLE001
-        name = type(e).__name__
-        print("0" if name == "ValidationError" else "E " + name, flush=True)
+        print("E " + type(e).__name__, flush=True)
